@@ -6,7 +6,7 @@ wt=/tmp/wt-$id$sfx; out=/tmp/seed-$id$sfx
 git -C /repo worktree add -f --detach $wt HEAD >/dev/null 2>&1 || { echo "worktree failed"; exit 1; }
 # the agent must not see the contracts: remove the comment-only contract files from its worktree
 # (skip-worktree keeps `git diff` / `git status` there silent about the removal)
-for f in $(git -C $wt ls-files | grep 'verif_contracts.go$'); do
+for f in $(git -C $wt ls-files | grep 'verif_contracts[a-z_0-9]*\.go$'); do
   git -C $wt update-index --skip-worktree $f && rm -f $wt/$f
 done
 mkdir -p $out
